@@ -406,9 +406,20 @@ fn adversarial_rules() -> BoxedStrategy<crate::props::c03::Spec> {
             .prop_map(|(pattern, in_src, products, in_dst, from)| RuleSpec::Match { pattern, in_src, products, in_dst, from }),
     ];
     // digest sets with one or two algorithms, or (representable in parsed links) none at all
-    let arts = proptest::collection::btree_map(p, prop_oneof![5 => digests(true), 1 => Just(Digests::new())], 0..4);
-    (proptest::collection::vec(rule.clone(), 0..4), proptest::collection::vec(rule, 0..4), arts.clone(), arts.clone(), arts.clone(), arts)
-        .prop_map(|(expected_materials, expected_products, materials, products, m1, p1)| crate::props::c03::Spec {
+    let dg = prop_oneof![5 => digests(true), 2 => Just(Digests::new())];
+    let arts = proptest::collection::btree_map(p.clone(), dg.clone(), 0..4);
+    // half of the cases: the four artifact maps draw their paths from one small pool, so that MATCH rules find
+    // the same path on both sides (with equal, different or empty digest sets)
+    let pooled = (proptest::collection::vec(p, 1..4), proptest::collection::vec((any::<u8>(), dg), 4..12)).prop_map(|(pool, picks)| {
+        let mut maps: Vec<Artifacts> = vec![Artifacts::new(), Artifacts::new(), Artifacts::new(), Artifacts::new()];
+        for (i, (sel, d)) in picks.into_iter().enumerate() {
+            maps[i % 4].insert(pool[sel as usize % pool.len()].clone(), d);
+        }
+        (maps[0].clone(), maps[1].clone(), maps[2].clone(), maps[3].clone())
+    });
+    let four = prop_oneof![(arts.clone(), arts.clone(), arts.clone(), arts).boxed(), pooled.boxed()];
+    (proptest::collection::vec(rule.clone(), 0..4), proptest::collection::vec(rule, 0..4), four)
+        .prop_map(|(expected_materials, expected_products, (materials, products, m1, p1))| crate::props::c03::Spec {
             inspection: false,
             name: "item".into(),
             expected_materials,
